@@ -169,6 +169,37 @@ func (fv *FV) obligeNamed(e *Env, kind, name string, at ast.Node, desc string, c
 
 func (fv *FV) entryBind() map[types.Object]Value { return fv.entryVals }
 
+// specTermA evaluates a clause that is going to be assumed: the typing facts of
+// the closed terms it reads (slice lengths >= 0, machine integer ranges) are
+// assumed with it. specTermO evaluates a clause that is to be proved: the same
+// facts may be used as hypotheses. Both directions are sound: the facts hold
+// in every well-typed Go state.
+func (fv *FV) specTermA(e *Env, cl *Clause, sc *specCtx) Term {
+	var facts []Term
+	sc.facts = &facts
+	t := fv.specTerm(e, cl, sc)
+	return and(append(facts, t)...)
+}
+
+func (fv *FV) specTermO(e *Env, cl *Clause, sc *specCtx) Term {
+	var facts []Term
+	sc.facts = &facts
+	t := fv.specTerm(e, cl, sc)
+	return implies(and(facts...), t)
+}
+
+func (fv *FV) specFact(t Term) {
+	if fv.spec == nil || fv.spec.facts == nil || t.S == "true" || strings.Contains(t.S, "!q") {
+		return
+	}
+	for _, f := range *fv.spec.facts {
+		if f.S == t.S {
+			return
+		}
+	}
+	*fv.spec.facts = append(*fv.spec.facts, t)
+}
+
 func (fv *FV) specTerm(e *Env, cl *Clause, sc *specCtx) Term {
 	if cl.Expr == nil {
 		fv.specErr(fmt.Sprintf("%s:%d: clause did not type-check: %s", cl.File, cl.Line, cl.Text))
@@ -352,16 +383,16 @@ func (fv *FV) run() {
 	// assumed facts: package globals, requires, assumes
 	if u.Spec != nil {
 		for _, g := range u.Spec.Globals {
-			fv.assume(e, fv.specTerm(e, g, &specCtx{old: fv.entry}))
+			fv.assume(e, fv.specTermA(e, g, &specCtx{old: fv.entry}))
 			fv.assumptionsUsed["package invariant (assumed): "+g.Text] = true
 		}
 	}
 	if u.C != nil {
 		for _, cl := range u.C.Requires {
-			fv.assume(e, fv.specTerm(e, cl, &specCtx{old: fv.entry, bind: fv.entryVals}))
+			fv.assume(e, fv.specTermA(e, cl, &specCtx{old: fv.entry, bind: fv.entryVals}))
 		}
 		for _, cl := range u.C.Assumes {
-			fv.assume(e, fv.specTerm(e, cl, &specCtx{old: fv.entry, bind: fv.entryVals}))
+			fv.assume(e, fv.specTermA(e, cl, &specCtx{old: fv.entry, bind: fv.entryVals}))
 			fv.assumptionsUsed["assumed at entry of "+u.Name()+": "+cl.Text] = true
 		}
 		// allocation bound for `safety alloc`: sum of lengths of slice params + 64KiB
@@ -472,12 +503,12 @@ func (fv *FV) checkExit(ex *Exit, k int) {
 	at := &ast.Ident{NamePos: ex.pos}
 	line := fv.eng.fset.Position(ex.pos).Line
 	for _, cl := range u.C.Ensures {
-		t := fv.specTerm(ex.env, cl, &specCtx{old: fv.entry, bind: bind, results: ex.results, preAlloc: fv.entry.alloc})
+		t := fv.specTermO(ex.env, cl, &specCtx{old: fv.entry, bind: bind, results: ex.results, preAlloc: fv.entry.alloc})
 		fv.obligeNamed(ex.env, "post", fmt.Sprintf("post:%s@return%d", cl.Label, k+1), at,
 			fmt.Sprintf("postcondition %q at return on line %d", cl.Text, line), t)
 	}
 	for _, cl := range u.C.EnsuresLocal {
-		t := fv.specTerm(ex.env, cl, &specCtx{old: fv.entry, bind: bind, results: ex.results, preAlloc: fv.entry.alloc, lenient: true})
+		t := fv.specTermO(ex.env, cl, &specCtx{old: fv.entry, bind: bind, results: ex.results, preAlloc: fv.entry.alloc, lenient: true})
 		fv.obligeNamed(ex.env, "post", fmt.Sprintf("post:%s@return%d", cl.Label, k+1), at,
 			fmt.Sprintf("postcondition over locals %q at return on line %d", cl.Text, line), t)
 	}
